@@ -210,7 +210,12 @@ pub fn oracle(c: &Case) -> CaseResult {
             expected.insert(path.clone(), v);
         }
     }
-    std::fs::write(cfg.join("base.yml"), yaml(&base)).map_err(|e| Fail::new("harness:io", e.to_string()))?;
+    // when no key lives in the base file, the file itself is left out for every other such case
+    // (an absent file contributes nothing, exactly like an empty one)
+    let omit_base = base.is_empty() && c.keys.len() % 2 == 0;
+    if !omit_base {
+        std::fs::write(cfg.join("base.yml"), yaml(&base)).map_err(|e| Fail::new("harness:io", e.to_string()))?;
+    }
     if c.profile_file_exists {
         std::fs::write(cfg.join(format!("{pname}.yml")), yaml(&prof)).map_err(|e| Fail::new("harness:io", e.to_string()))?;
     }
@@ -374,6 +379,9 @@ pub fn oracle(c: &Case) -> CaseResult {
         info.lab("nested-key-from-env");
     }
     info.lab(format!("dir:{:?}", c.dir));
+    if omit_base {
+        info.lab("base-file-absent");
+    }
     if c.explicit_profile && px_profile.is_some() {
         info.lab("explicit-profile-and-PX_PROFILE-both-set");
     }
